@@ -2,22 +2,27 @@
 //! Every harness calls the REAL function; "mirror" expressions are the documented formula.
 use super::*;
 
-const N: usize = 3;
-
 fn any_finite() -> f64 {
     let x: f64 = kani::any();
     kani::assume(x.is_finite());
     x
 }
 
-fn any_finite_arr() -> [f64; N] {
-    [any_finite(), any_finite(), any_finite()]
+/// Fixed-length arrays (one harness instance per length 1, 2, 3): slices of symbolic length make
+/// CBMC's SMT2 back end (needed for float reasoning) abort.
+fn any_finite_arr<const N: usize>() -> [f64; N] {
+    let mut a = [0.0f64; N];
+    let mut i = 0;
+    while i < N { a[i] = any_finite(); i += 1; }
+    a
 }
 
-fn any_len() -> usize {
-    let n: usize = kani::any();
-    kani::assume(n >= 1 && n <= N);
-    n
+macro_rules! for_lengths {
+    ($body:ident, $n1:ident, $n2:ident, $n3:ident, $($attr:meta),*) => {
+        #[kani::proof] #[kani::unwind(5)] $(#[$attr])* fn $n1() { $body::<1>(); }
+        #[kani::proof] #[kani::unwind(5)] $(#[$attr])* fn $n2() { $body::<2>(); }
+        #[kani::proof] #[kani::unwind(5)] $(#[$attr])* fn $n3() { $body::<3>(); }
+    };
 }
 
 fn any_params() -> RegretParams {
@@ -77,99 +82,99 @@ fn fmt_stub(_: std::fmt::Arguments<'_>) -> String {
 }
 
 // ---------------------------------------------------------------------------------------------
-// C08 gen_discount special values (function contract; loop-free: complete proof)
+// C08 gen_discount special values (loop-free over all u64 x the three special exponents: complete)
 // ---------------------------------------------------------------------------------------------
 
 /// C08.K.gen_discount.special: -inf -> 0, 0 -> 1/2, +inf -> 1, for EVERY iteration number.
-#[kani::proof_for_contract(RegretParams::gen_discount)]
+#[kani::proof]
 fn c08_gen_discount_special() {
     let it: u64 = kani::any();
-    let d: f64 = kani::any();
-    RegretParams::gen_discount(it, d);
+    assert!(RegretParams::gen_discount(it, f64::NEG_INFINITY) == 0.0, "C08.K.gen_discount.special: exponent -inf forgets everything");
+    assert!(RegretParams::gen_discount(it, 0.0) == 0.5, "C08.K.gen_discount.special: exponent 0 halves");
+    assert!(RegretParams::gen_discount(it, -0.0) == 0.5, "C08.K.gen_discount.special: exponent -0 halves");
+    assert!(RegretParams::gen_discount(it, f64::INFINITY) == 1.0, "C08.K.gen_discount.special: exponent +inf never discounts");
 }
 
 // ---------------------------------------------------------------------------------------------
 // C02 / C05 cum_regret
 // ---------------------------------------------------------------------------------------------
 
-fn fold_max(r: &[f64]) -> Option<f64> {
-    let mut acc: Option<f64> = None;
-    let mut i = 0;
-    while i < r.len() {
-        acc = Some(match acc {
-            None => r[i],
-            Some(a) => f64::max(a, r[i]),
-        });
-        i += 1;
-    }
+fn fold_max<const N: usize>(r: &[f64; N]) -> f64 {
+    let mut acc = r[0];
+    let mut i = 1;
+    while i < N { acc = f64::max(acc, r[i]); i += 1; }
     acc
 }
 
 /// C02.K.cum_regret.formula: 2 * max(max_i R_i, 0) / T, for all finite regrets and all T >= 1;
-/// never negative, never NaN; the regrets are not modified; an empty infoset gives 0.
-#[kani::proof]
-#[kani::unwind(5)]
-#[kani::solver(cvc5)]
-fn c02_cum_regret_formula() {
-    let orig = any_finite_arr();
+/// never negative, never NaN; the regrets are not modified.
+fn cum_regret_formula<const N: usize>() {
+    let orig = any_finite_arr::<N>();
     let mut r = orig;
-    let n: usize = kani::any();
-    kani::assume(n <= N);
     let it: u64 = kani::any();
     kani::assume(it >= 1);
     let p = any_params();
-    let res = p.cum_regret(it, &mut r[..n]);
-    let spec = 2.0 * f64::max(fold_max(&orig[..n]).unwrap_or(0.0), 0.0) / it as f64;
+    let res = p.cum_regret(it, &mut r);
+    let spec = 2.0 * f64::max(fold_max(&orig), 0.0) / it as f64;
     assert!(res == spec, "C02.K.cum_regret.formula: result is 2*max(max R,0)/T");
     assert!(res >= 0.0, "C02.K.cum_regret.nonneg: bound is a non-negative number");
-    assert!(n > 0 || res == 0.0, "C02.K.cum_regret.formula: empty infoset gives 0");
-    assert!(r[0].to_bits() == orig[0].to_bits() && r[1].to_bits() == orig[1].to_bits() && r[2].to_bits() == orig[2].to_bits(),
-        "C02.K.cum_regret.frame: regrets unchanged");
-    kani::cover!(n == 3 && res > 0.0, "positive bound reachable");
+    let mut i = 0;
+    while i < N { assert!(r[i].to_bits() == orig[i].to_bits(), "C02.K.cum_regret.frame: regrets unchanged"); i += 1; }
+    kani::cover!(res > 0.0, "positive bound reachable");
+}
+for_lengths!(cum_regret_formula, c02_cum_regret_formula_n1, c02_cum_regret_formula_n2, c02_cum_regret_formula_n3, kani::solver(cvc5));
+
+/// C02.K.cum_regret.empty: an infoset without actions contributes 0.
+#[kani::proof]
+#[kani::unwind(3)]
+fn c02_cum_regret_empty() {
+    let mut r: [f64; 0] = [];
+    let it: u64 = kani::any();
+    kani::assume(it >= 1);
+    assert!(any_params().cum_regret(it, &mut r) == 0.0, "C02.K.cum_regret.formula: empty infoset gives 0");
 }
 
 // ---------------------------------------------------------------------------------------------
 // C05 avg_strat
 // ---------------------------------------------------------------------------------------------
 
-/// C05.K.avg_strat.distribution: finite non-negative accumulations with a finite sum normalise to
-/// finite entries in [0,1] with at least one positive; nothing accumulated gives exactly uniform.
-#[kani::proof]
-#[kani::unwind(5)]
-#[kani::solver(cvc5)]
-fn c05_avg_strat_distribution() {
-    let orig = any_finite_arr();
-    kani::assume(orig[0] >= 0.0 && orig[1] >= 0.0 && orig[2] >= 0.0);
-    kani::assume(orig[0] <= 1e300 && orig[1] <= 1e300 && orig[2] <= 1e300);
-    let n = any_len();
-    let mut s = orig;
-    avg_strat(&mut s[..n]);
+fn is_distribution<const N: usize>(s: &[f64; N]) -> bool {
     let mut any_pos = false;
-    let mut all_zero_in = true;
+    let mut ok = true;
     let mut i = 0;
-    while i < n {
-        assert!(s[i].is_finite() && s[i] >= 0.0 && s[i] <= 1.0, "C05.K.avg_strat.distribution: entry finite and in [0,1]");
+    while i < N {
+        if !(s[i].is_finite() && s[i] >= 0.0 && s[i] <= 1.0) { ok = false; }
         if s[i] > 0.0 { any_pos = true; }
-        if orig[i] != 0.0 { all_zero_in = false; }
         i += 1;
     }
-    assert!(any_pos, "C05.K.avg_strat.distribution: some action has positive probability");
+    ok && any_pos
+}
+
+/// C05.K.avg_strat.distribution: finite non-negative accumulations (each <= 1e300) normalise to
+/// finite entries in [0,1] with at least one positive; nothing accumulated gives exactly uniform.
+fn avg_strat_distribution<const N: usize>() {
+    let orig = any_finite_arr::<N>();
+    let mut all_zero_in = true;
+    let mut i = 0;
+    while i < N { kani::assume(orig[i] >= 0.0 && orig[i] <= 1e300); if orig[i] != 0.0 { all_zero_in = false; } i += 1; }
+    let mut s = orig;
+    avg_strat(&mut s);
+    assert!(is_distribution(&s), "C05.K.avg_strat.distribution: finite entries in [0,1], some action positive");
     if all_zero_in {
         let mut j = 0;
-        while j < n {
-            assert!(s[j] == 1.0 / n as f64, "C05.K.avg_strat.uniform_when_empty: uniform if nothing accumulated");
-            j += 1;
-        }
+        while j < N { assert!(s[j] == 1.0 / N as f64, "C05.K.avg_strat.uniform_when_empty: uniform if nothing accumulated"); j += 1; }
     }
-    kani::cover!(all_zero_in && n == 3, "zero guard reachable");
-    kani::cover!(!all_zero_in && n == 3, "normalisation reachable");
+    kani::cover!(all_zero_in, "zero guard reachable");
+    kani::cover!(!all_zero_in, "normalisation reachable");
 }
+for_lengths!(avg_strat_distribution, c05_avg_strat_distribution_n1, c05_avg_strat_distribution_n2, c05_avg_strat_distribution_n3, kani::solver(cvc5));
 
 /// C05.K.RegretInfoset_new.uniform: a fresh infoset plays uniformly and has nothing accumulated.
 #[kani::proof]
 #[kani::unwind(5)]
 fn c05_regret_infoset_new() {
-    let n = any_len();
+    let n: usize = kani::any();
+    kani::assume(n >= 1 && n <= 3);
     let info = RegretInfoset::new(n);
     assert!(info.strat.len() == n && info.cum_regret.len() == n && info.cum_strat.len() == n, "C05.K.RegretInfoset_new: lengths");
     let mut i = 0;
@@ -184,87 +189,70 @@ fn c05_regret_infoset_new() {
 // C05 / C08 regret_match
 // ---------------------------------------------------------------------------------------------
 
-fn bounded_regrets() -> [f64; N] {
-    let r = any_finite_arr();
-    kani::assume(r[0].abs() <= 1e150 && r[1].abs() <= 1e150 && r[2].abs() <= 1e150);
-    r
-}
-
-fn is_distribution(s: &[f64]) -> bool {
-    let mut any_pos = false;
+fn bounded_regrets<const N: usize>() -> [f64; N] {
+    let r = any_finite_arr::<N>();
     let mut i = 0;
-    while i < s.len() {
-        if !(s[i].is_finite() && s[i] >= 0.0 && s[i] <= 1.0) {
-            return false;
-        }
-        if s[i] > 0.0 { any_pos = true; }
-        i += 1;
-    }
-    any_pos
+    while i < N { kani::assume(r[i].abs() <= 1e150); i += 1; }
+    r
 }
 
 /// C08.K.regret_match.positive: with some positive regret the next strategy is proportional to the
 /// positive part of the regrets (zero exactly on non-positive regrets); C05: it is a distribution.
-#[kani::proof]
-#[kani::unwind(5)]
-#[kani::solver(cvc5)]
-fn c08_regret_match_positive() {
-    let orig = bounded_regrets();
-    let n = any_len();
+fn regret_match_positive<const N: usize>() {
+    let orig = bounded_regrets::<N>();
     let mut some_pos = false;
     let mut i = 0;
-    while i < n { if orig[i] > 0.0 { some_pos = true; } i += 1; }
+    while i < N { if orig[i] > 0.0 { some_pos = true; } i += 1; }
     kani::assume(some_pos);
     let mut r = orig;
     let mut s = [0.5f64; N];
     let p = any_params();
-    p.regret_match(&mut r[..n], &mut s[..n]);
-    assert!(is_distribution(&s[..n]), "C05.K.regret_match.distribution: positive branch gives a distribution");
+    p.regret_match(&mut r, &mut s);
+    assert!(is_distribution(&s), "C05.K.regret_match.distribution: positive branch gives a distribution");
     let mut j = 0;
-    while j < n {
+    while j < N {
         assert!((s[j] == 0.0) == !(orig[j] > 0.0), "C08.K.regret_match.positive: support is exactly the positive regrets");
         assert!(r[j].to_bits() == orig[j].to_bits(), "C08.K.regret_match.frame: regrets unchanged");
+        let mut k = 0;
+        while k < N {
+            if orig[j] > 0.0 && orig[k] > 0.0 && orig[j] <= orig[k] {
+                assert!(s[j] <= s[k], "C08.K.regret_match.positive: larger positive regret, no smaller probability");
+            }
+            k += 1;
+        }
         j += 1;
     }
-    // proportionality: s_a * R_b == s_b * R_a up to one rounding is not bit-exact; check order instead
-    if n == 3 && orig[0] > 0.0 && orig[1] > 0.0 {
-        assert!((orig[0] <= orig[1]) == (s[0] <= s[1]) || s[0] == s[1], "C08.K.regret_match.positive: monotone in the regret");
-    }
 }
+for_lengths!(regret_match_positive, c08_regret_match_positive_n1, c08_regret_match_positive_n2, c08_regret_match_positive_n3, kani::solver(cvc5));
 
-/// C08.K.regret_match.fallbacks: without positive regret -> weight +inf: best action; 0: uniform;
-/// -inf: worst action.  C05: always a distribution, never a panic (finite regrets).
-#[kani::proof]
-#[kani::unwind(5)]
-#[kani::solver(cvc5)]
-fn c08_regret_match_fallbacks() {
-    let orig = bounded_regrets();
-    let n = any_len();
+/// C08.K.regret_match.fallbacks: without positive regret -> weight +inf: a best action; 0: uniform;
+/// -inf: a worst action.  C05: always a distribution, never a panic (finite regrets).
+fn regret_match_fallbacks<const N: usize>() {
+    let orig = bounded_regrets::<N>();
     let mut i = 0;
-    while i < n { kani::assume(!(orig[i] > 0.0)); i += 1; }
+    while i < N { kani::assume(!(orig[i] > 0.0)); i += 1; }
     let mut r = orig;
     let mut s = [0.5f64; N];
     let mut p = any_params();
     let which: u8 = kani::any();
     kani::assume(which < 3);
     p.no_positive = if which == 0 { f64::INFINITY } else if which == 1 { 0.0 } else { f64::NEG_INFINITY };
-    p.regret_match(&mut r[..n], &mut s[..n]);
-    assert!(is_distribution(&s[..n]), "C05.K.regret_match.distribution: fallback gives a distribution");
-    let mx = fold_max(&orig[..n]).unwrap();
+    p.regret_match(&mut r, &mut s);
+    assert!(is_distribution(&s), "C05.K.regret_match.distribution: fallback gives a distribution");
     let mut j = 0;
     let mut ones = 0;
-    while j < n {
+    while j < N {
         if which == 1 {
-            assert!(s[j] == 1.0 / n as f64, "C08.K.regret_match.uniform: weight 0 is uniform");
+            assert!(s[j] == 1.0 / N as f64, "C08.K.regret_match.uniform: weight 0 is uniform");
         } else {
             assert!(s[j] == 0.0 || s[j] == 1.0, "C08.K.regret_match.argmax: pure strategy");
             if s[j] == 1.0 {
                 ones += 1;
-                if which == 0 {
-                    assert!(orig[j] == mx, "C08.K.regret_match.argmax: weight +inf plays a best action");
-                } else {
-                    let mut k = 0;
-                    while k < n { assert!(orig[j] <= orig[k], "C08.K.regret_match.argmin: weight -inf plays a worst action"); k += 1; }
+                let mut k = 0;
+                while k < N {
+                    if which == 0 { assert!(orig[j] >= orig[k], "C08.K.regret_match.argmax: weight +inf plays a best action"); }
+                    else { assert!(orig[j] <= orig[k], "C08.K.regret_match.argmin: weight -inf plays a worst action"); }
+                    k += 1;
                 }
             }
         }
@@ -272,9 +260,10 @@ fn c08_regret_match_fallbacks() {
         j += 1;
     }
     assert!(which == 1 || ones == 1, "C08.K.regret_match.argmax: exactly one action");
-    kani::cover!(which == 0 && n == 3, "argmax reachable");
-    kani::cover!(which == 2 && n == 3, "argmin reachable");
+    kani::cover!(which == 0, "argmax reachable");
+    kani::cover!(which == 2, "argmin reachable");
 }
+for_lengths!(regret_match_fallbacks, c08_regret_match_fallbacks_n1, c08_regret_match_fallbacks_n2, c08_regret_match_fallbacks_n3, kani::solver(cvc5));
 
 /// Sound interval model of f64::exp (CBMC's own exp is a nondeterministic over-approximation).
 /// exp(x) for x <= 0 lies in [0,1], exp(0) == 1, exp(x) >= 1 (possibly +inf) for x > 0, NaN -> NaN.
@@ -296,26 +285,22 @@ fn exp_model(x: f64) -> f64 {
 
 /// C05.K.regret_match.softmax: finite non-zero weight of either sign, no positive regret: the
 /// softmax fallback is a distribution (finite, in [0,1], some entry positive), never NaN.
-#[kani::proof]
-#[kani::unwind(5)]
-#[kani::solver(cvc5)]
-#[kani::stub(f64::exp, exp_model)]
-fn c05_regret_match_softmax() {
-    let orig = bounded_regrets();
-    let n = any_len();
+fn regret_match_softmax<const N: usize>() {
+    let orig = bounded_regrets::<N>();
     let mut i = 0;
-    while i < n { kani::assume(!(orig[i] > 0.0)); i += 1; }
+    while i < N { kani::assume(!(orig[i] > 0.0)); i += 1; }
     let mut r = orig;
     let mut s = [0.5f64; N];
     let mut p = any_params();
     let w: f64 = kani::any();
     kani::assume(w.is_finite() && w != 0.0 && w.abs() <= 1e3);
     p.no_positive = w;
-    p.regret_match(&mut r[..n], &mut s[..n]);
-    assert!(is_distribution(&s[..n]), "C05.K.regret_match.softmax: softmax fallback gives a distribution for either sign of the weight");
-    kani::cover!(w < 0.0 && n == 3, "negative weight reachable");
-    kani::cover!(w > 0.0 && n == 3, "positive weight reachable");
+    p.regret_match(&mut r, &mut s);
+    assert!(is_distribution(&s), "C05.K.regret_match.softmax: softmax fallback gives a distribution for either sign of the weight");
+    kani::cover!(w < 0.0, "negative weight reachable");
+    kani::cover!(w > 0.0, "positive weight reachable");
 }
+for_lengths!(regret_match_softmax, c05_regret_match_softmax_n1, c05_regret_match_softmax_n2, c05_regret_match_softmax_n3, kani::solver(cvc5), kani::stub(f64::exp, exp_model));
 
 // ---------------------------------------------------------------------------------------------
 // C08 discount_cum_regret / discount_average_strat (callee replaced by observers)
@@ -337,12 +322,8 @@ fn gen_discount_observer(it: u64, discount: f64) -> f64 {
 
 /// C08.K.discount_cum_regret: positive regrets are multiplied by the factor of `pos_regret`,
 /// negative ones by the factor of `neg_regret`, zeros untouched, same iteration number for both.
-#[kani::proof]
-#[kani::unwind(5)]
-#[kani::stub(RegretParams::gen_discount, gen_discount_observer)]
-fn c08_discount_cum_regret() {
-    let orig = any_finite_arr();
-    let n = any_len();
+fn discount_cum_regret<const N: usize>() {
+    let orig = any_finite_arr::<N>();
     let mut r = orig;
     let p = any_params();
     kani::assume(p.pos_regret.to_bits() != p.neg_regret.to_bits());
@@ -354,14 +335,15 @@ fn c08_discount_cum_regret() {
         GD_POS_OUT = gp;
         GD_NEG_OUT = gn;
     }
-    p.discount_cum_regret(it, &mut r[..n]);
+    p.discount_cum_regret(it, &mut r);
     let mut j = 0;
     while j < N {
-        let want = if j >= n { orig[j] } else if orig[j] > 0.0 { orig[j] * gp } else if orig[j] < 0.0 { orig[j] * gn } else { orig[j] };
+        let want = if orig[j] > 0.0 { orig[j] * gp } else if orig[j] < 0.0 { orig[j] * gn } else { orig[j] };
         assert!(r[j].to_bits() == want.to_bits(), "C08.K.discount_cum_regret: positive x factor(alpha), negative x factor(beta), zero untouched");
         j += 1;
     }
 }
+for_lengths!(discount_cum_regret, c08_discount_cum_regret_n1, c08_discount_cum_regret_n2, c08_discount_cum_regret_n3, kani::stub(RegretParams::gen_discount, gen_discount_observer));
 
 static mut POWF_BASE: u64 = 0;
 static mut POWF_EXP: u64 = 0;
@@ -379,23 +361,19 @@ fn powf_observer(base: f64, e: f64) -> f64 {
 
 /// C08.K.discount_average_strat: every entry is multiplied by ONE ratio (t/(t+1))^gamma; unchanged
 /// for gamma == 0; all zero for gamma == +inf.
-#[kani::proof]
-#[kani::unwind(5)]
-#[kani::stub(f64::powf, powf_observer)]
-fn c08_discount_average_strat() {
-    let orig = any_finite_arr();
-    let n = any_len();
+fn discount_average_strat<const N: usize>() {
+    let orig = any_finite_arr::<N>();
     let mut s = orig;
     let p = any_params();
     kani::assume(!p.strat.is_nan() && p.strat >= 0.0);
     let it: u64 = kani::any();
     let out = any_finite();
     unsafe { POWF_OUT = out; POWF_CALLS = 0; }
-    p.discount_average_strat(it, &mut s[..n]);
+    p.discount_average_strat(it, &mut s);
     let calls = unsafe { POWF_CALLS };
     let mut j = 0;
     while j < N {
-        let want = if j >= n { orig[j] } else if p.strat == f64::INFINITY { 0.0 } else if p.strat > 0.0 { orig[j] * out } else { orig[j] };
+        let want = if p.strat == f64::INFINITY { 0.0 } else if p.strat > 0.0 { orig[j] * out } else { orig[j] };
         assert!(s[j].to_bits() == want.to_bits(), "C08.K.discount_average_strat: every entry x one shared ratio");
         j += 1;
     }
@@ -410,3 +388,4 @@ fn c08_discount_average_strat() {
     kani::cover!(p.strat == 0.0, "gamma zero reachable");
     kani::cover!(p.strat == 2.0, "gamma two reachable");
 }
+for_lengths!(discount_average_strat, c08_discount_average_strat_n1, c08_discount_average_strat_n2, c08_discount_average_strat_n3, kani::stub(f64::powf, powf_observer));
